@@ -1150,7 +1150,8 @@ def run_plan(ctx, plan, poisoned, reserve):
             hi = min(total, lo + chunk)
             pos[tag] = hi
             if ctx.time_left() <= reserve:
-                ctx.count("cases_cut_by_budget", hi - lo)
+                ctx.count("cases_cut_by_budget",
+                          sum(1 for k in range(lo, hi) if ctx.mine(k)))
                 continue
             for k in range(lo, hi):
                 if not ctx.mine(k):
